@@ -202,8 +202,9 @@ def _from_namespace(run, a):
     run["ovw"] = not bool(g("no_overwrite", False))
     fm = g("file_mode")
     if isinstance(fm, int) and not isinstance(fm, bool):
-        run["fm"] = fm & 0o7777
+        run["fm"] = fm & 0o7777  # --file-mode is what the caller asked for, whatever the order of the post-processor list
         run["fm_last"] = True
+        run["_fm_args"] = True
     run["opts"] = {k: g(k) for k in ("generate_support", "omit_serialization_support", "target_language", "generate_namespace_types")
                    if isinstance(g(k), (str, bool, type(None)))}
     run["opts"]["program"] = bool(g("pp_run_program"))
@@ -231,7 +232,7 @@ def _pps(run, gen):
     run["pps"] = names
     run["custom_pp"] = any(not (type(pp).__module__ or "").startswith("nunavut.") for pp in pps)
     for i, pp in enumerate(pps):
-        if type(pp).__name__ == "SetFileMode":
+        if type(pp).__name__ == "SetFileMode" and not run.get("_fm_args"):
             fm = getattr(pp, "_file_mode", None)
             if isinstance(fm, int) and not isinstance(fm, bool):
                 run["fm"] = fm & 0o7777
@@ -377,6 +378,7 @@ def _wrap(fn, tag):
                         run["printed"] = [x for x in "".join(sink).split(";") if x.strip()]
                     run.pop("_trace", None)
                     run.pop("_copy", None)
+                    run.pop("_fm_args", None)
                     _emit(run)
             except Exception:
                 S.run = None
